@@ -435,7 +435,8 @@ def kind_item_type(draw, in_sig=False):
     if k == 3:
         return ['nsnode']
     if k == 4:
-        return ['pi', draw(st.sampled_from([None, 'tgt', 'zz']))]
+        return draw(st.sampled_from([['pi', None], ['pi', 'tgt'], ['pi', 'zz'], ['pi', 'tgt', '" tgt "'], ['pi', 'tgt', "'tgt'"],
+                                     ['pi', 'zz', '"zz  "'], ['pi', 'tgt', "'  tgt '"]]))
     if k == 5:
         e = draw(st.sampled_from([None, ['element', None, None, False], ['element', 'a', None, False],
                                   ['element', 'b', None, False], ['element', 'a', 'xs:untyped', False]]))
@@ -755,7 +756,9 @@ def near_item_types(d):
                     ['doc', ['element', 'b', None, False]], ['doc', ['element', 'a', 'xs:untyped', False]],
                     ['doc', ['element', None, 'xs:anyType', False]], ['node'], ['element', None, None, False]]
         if kind == 'processing-instruction':
-            return [['pi', None], ['pi', 'tgt'], ['pi', 'zz'], ['node'], ['comment']]
+            return [['pi', None], ['pi', 'tgt'], ['pi', 'zz'], ['node'], ['comment'], ['pi', 'tgt', '"tgt"'], ['pi', 'tgt', "'tgt'"],
+                    ['pi', 'tgt', '" tgt "'], ['pi', 'tgt', '"tgt  "'], ['pi', 'tgt', "'  tgt'"], ['pi', 'zz', '" zz "'],
+                    ['pi', 'tgt', '" tgt"'], ['pi', 'tgtx', '"tgt x"'.replace(' x', 'x')]]
         return [{'text': ['text'], 'comment': ['comment'], 'namespace': ['nsnode']}[kind], ['node'], ['text'],
                 ['comment'], ['nsnode'], ['pi', None]]
     if k == 'func':
